@@ -35,7 +35,7 @@ SYM = "krrood.entity_query_language.symbolic"
 CS = "krrood.entity_query_language.conclusion_selector"
 FUNCTIONS = [(EI, "EQLTranslator.translate_query"), (EI, "EQLTranslator.translate_and"), (EI, "EQLTranslator.translate_or"),
              (EI, "EQLTranslator._collect_logical_parts"), (EI, "EQLTranslator._combine_logical_parts"),
-             (EI, "OperatorMapper.map_comparison_operator"), (EI, "EQLTranslator.translate_attribute"),
+             (EI, "OperatorMapper.map_comparison_operator"), (EI, "EQLTranslator.translate_attribute"), (EI, "EQLTranslator.translate_comparator"), (EI, "EQLTranslator._handle_contains_operator"),
              (EI, "EQLTranslator._assert_variable_is_selected_or_joined"), (EI, "EQLTranslator._walk_attribute_chain"),
              (EI, "EQLTranslator._collect_attribute_chain"), (EI, "EQLTranslator._extract_base_class"),
              (EI, "EQLTranslator.evaluate"), (EI, "EQLTranslator.translate"), (EI, "AttributeChainResolver.extract_leaf_variable"),
@@ -338,6 +338,38 @@ def h_walk_chain():
     return Harness("walk-chain", run, spec=Spec())
 
 
+def h_membership():
+    """contains / in_ : a literal collection and an attribute become `column IN (values)` (negated for not_contains); a literal on
+    the other side likewise; the decision is taken on the EQL node kinds, the operands are translated once each."""
+    def run(vm):
+        ctx = vm.ctx
+        install_sql(vm)
+        Lit, Attr, Cmp = cls(vm, SYM, "Literal"), cls(vm, SYM, "Attribute"), cls(vm, SYM, "Comparator")
+        t = translator(vm)
+        col = Sql(("T.x",))
+        vm.spec.stubs["EQLTranslator.translate_attribute"] = lambda it, a, k: col
+        vm.spec.stubs["EQLTranslator._is_attribute_equality_join"] = lambda it, a, k: False
+        cases = [("in_", PyList([1, 7]), ("in", ("T.x",), [1, 7]), False), ("contains", PyList([1, 7]), ("in", ("T.x",), [1, 7]), False),
+                 ("in_", PyList([]), ("in", ("T.x",), []), False), ("in_", PyList([5]), ("in", ("T.x",), [5]), False)]
+        for opname, values, want, neg in cases:
+            lit = vm.alloc(Lit, {}, tag="literal-list")
+            vm.spec.stubs["DomainValueExtractor.extract_from_literal"] = lambda it, a, k, values=values: values
+            attr = vm.alloc(Attr, {"_attr_name_": "x"}, tag="attribute")
+            op = vm.alloc(vm.ext("object"), {"__name__": opname}, tag=f"operator-{opname}")
+            node = vm.alloc(Cmp, {"left": lit, "right": attr, "operation": op}, tag="comparator")
+            got = vm.call_method(t, "translate_comparator", node)
+
+            def norm(x):
+                if isinstance(x, PyList):
+                    return [norm(i) for i in x.items]
+                if isinstance(x, tuple):
+                    return tuple(norm(i) for i in x)
+                return x
+            ok = isinstance(got, Sql) and norm(got.term) == want
+            ctx.check("EQLTranslator.translate_comparator::a-literal-collection-and-an-attribute-become-column-IN-values", z3.BoolVal(ok), detail=f"{opname} {values!r}: {got!r}")
+    return Harness("membership", run, spec=Spec())
+
+
 def h_error_hierarchy():
     """every raise statement of the module raises (a call of) a class below EQLTranslationError"""
     def run(vm):
@@ -372,4 +404,4 @@ def h_canary():
 
 
 def harnesses():
-    return [h_dispatch(), h_logical(), h_operators(), h_attribute_guard(), h_evaluate_and_translate(), h_walk_chain(), h_error_hierarchy(), h_canary()]
+    return [h_dispatch(), h_logical(), h_operators(), h_attribute_guard(), h_evaluate_and_translate(), h_walk_chain(), h_membership(), h_error_hierarchy(), h_canary()]
